@@ -186,9 +186,17 @@ func (c *Conn) Write(p []byte) (int, error) {
 		return 0, ErrBroken
 	}
 	for c.stallW {
-		// a write deadline that is near (cancelQuery's one second) expires; a far one does not
-		if !c.wdl.IsZero() && time.Until(c.wdl) < 5*time.Second {
-			return 0, timeoutErr("write")
+		if c.gated {
+			// replay mode has no clock: a write deadline that is near (cancelQuery's one second) expires, a far one does not
+			if !c.wdl.IsZero() && time.Until(c.wdl) < 5*time.Second {
+				return 0, timeoutErr("write")
+			}
+		} else if !c.wdl.IsZero() {
+			// free-running: the write stays blocked until its deadline really passes (or the connection is closed)
+			if !time.Now().Before(c.wdl) {
+				return 0, timeoutErr("write")
+			}
+			time.AfterFunc(time.Until(c.wdl)+time.Millisecond, c.cond.Broadcast)
 		}
 		if !c.blockedWrite {
 			c.blockedWrite, c.resumeW = true, false
